@@ -321,6 +321,70 @@ def campaign_xtlv(seed, tier):
     return scs
 
 
+TINY_MTUS = [54, 55, 60, 67, 68, 73, 74, 94, 100, 134, 200, 333]
+
+
+def sc_tiny_mtu(name, seed, mtu):
+    """Links with a very small frame budget (one or two descriptors per QueryResp, a few bytes of payload per
+    chunk). The mapper binds through Query / Emit / QueryLargeTlv; no Discover is sent, because a Hello does not
+    fit such a frame at all (outside every property's domain)."""
+    rng = random.Random(seed)
+    pay = mtu - 34
+    s = new_script(mtu=mtu, icon=(3 * pay + 1, 5), name=(pay, 6))
+    qcap, ecap = (mtu - 34) // 20, (mtu - 34) // 14
+    k = rng.choice([qcap, qcap + 1, 2 * qcap + 1, 3 * qcap + 2])
+    for i in range(k):
+        a = bytes([0x02, 0x33, mtu & 0xFF, seed & 0xFF, 0, i])
+        s.rx(1, probe(a, OWN, a, OWN, train=i & 1))
+    s.drain(1, query(M1, OWN, seq=20), k + 3)
+    s.rx(1, query(M1, OWN, seq=90))
+    for n, declared in ((1, None), (ecap, None), (max(1, ecap - 1), 0xFFFF), (ecap, ecap + 1)):
+        if n >= 1 and 34 + 14 * n <= mtu:
+            s.rx(1, emit(M1, OWN, [(i & 1, i, OWN, PEER) for i in range(n)], seq=100 + n, declared=declared), fill=rng.choice([0, 0xFF, 1]))
+    for typ in (0x0E, 0x11, 0x13):
+        s.drain(1, query_large(M1, OWN, typ, 0, seq=200), 12, large=True)
+        for off in (0, 1, pay - 1, pay, pay + 1, 3 * pay, 3 * pay + 1):
+            s.rx(1, query_large(M1, OWN, typ, off, seq=300 + off % 100))
+    s.rx(1, reset(M1))
+    s.rx(1, probe(X, OWN, X, OWN))
+    s.rx(1, query(M2, OWN, seq=5, eth_src=BR))
+    return Scenario(name, s.lines, {"mtu": mtu})
+
+
+def tiny_family(prefix, seed, tier):
+    rng = random.Random(seed ^ 0x7171)
+    return [sc_tiny_mtu("%s-tiny-%d" % (prefix, m), rng.randrange(1 << 30), m)
+            for m in (TINY_MTUS if tier == "quick" else TINY_MTUS + list(range(54, 120)) + [rng.randrange(120, 576) for _ in range(40)])]
+
+
+def sc_flood_reset(name, seed, mtu, n, twins=False):
+    """the observation list driven to (and past) its cap of 1 024, then a Reset, then an ordinary session: nothing
+    of the flood may show (on the twin interface the flood never happened)"""
+    rng = random.Random(seed)
+    s = new_script(mtu=mtu, twins=twins)
+    ifcs = [1, 2] if twins else [1]
+    s.rx(1, discover(0, M1, gen=1, seq=1))
+    s.flood(1, n, seed & 0xFFFF)
+    if rng.random() < 0.5:
+        s.rx(1, reset(M1, tos=1))
+    s.rx(1, reset(M1))
+    s.rx(ifcs, discover(0, M2, gen=2, seq=1, eth_src=BR))
+    s.rx(ifcs, query(M2, OWN, seq=2, eth_src=BR))
+    for i in range(3):
+        a = rnd_mac(rng)
+        s.rx(ifcs, probe(a, OWN, a, OWN, train=i & 1))
+    s.rx(ifcs, query(M2, OWN, seq=3, eth_src=BR))
+    s.rx(ifcs, query(M2, OWN, seq=4, eth_src=BR))
+    s.rx(1, reset(M2))
+    return Scenario(name, s.lines)
+
+
+def flood_family(prefix, seed, tier, twins=False):
+    rng = random.Random(seed ^ 0xF100D)
+    ns = [1023, 1024, 1025, 1100] if tier == "quick" else [1, 1000, 1022, 1023, 1024, 1025, 1026, 1100, 2048, 2049, 5000]
+    return [sc_flood_reset("%s-floodreset-%d" % (prefix, n), rng.randrange(1 << 30), rng.choice([576, 1500, 9216]), n, twins=twins) for n in ns]
+
+
 def sc_header_sweep(name, tos_list, ops, context, ver=1, dst_own=True):
     """one frame per (service byte, opcode) with a plausible body, from nobody / the bound mapper / a stranger;
     a Reset of both services in between keeps every frame's context the same"""
@@ -421,6 +485,8 @@ def campaign_c02(seed, tier):
         scs.append(sc_c06("c02-emit-%d" % mtu, rng.randrange(1 << 30), mtu, mtu % 2))
     for i in range(2 if tier == "quick" else 30):
         scs.append(sc_multihome("c02-multihome-%d" % i, rng.randrange(1 << 30), n=80))
+    scs += tiny_family("c02", seed, tier)
+    scs += flood_family("c02", seed, tier)
     return with_slow(scs, seed, every=6)
 
 
@@ -641,6 +707,7 @@ def campaign_c06(seed, tier):
         scs.append(sc_c06("c06-%d-r" % mtu, rng.randrange(1 << 30), mtu, mtu % 2))
     for i in range(8 if tier == "quick" else 200):
         scs.append(sc_history("c06-hist-%d" % i, rng.randrange(1 << 30), n=50, wild=0.1, mtu=rng.choice(MTUS)))
+    scs += tiny_family("c06", seed, tier)
     return with_slow(scs, seed, every=4)
 
 
@@ -753,6 +820,8 @@ def campaign_c07(seed, tier):
         scs.append(sc_churn("c07-churn-%d-%d" % (mtu, i), rng.randrange(1 << 30), mtu))
     for i in range(4 if tier == "quick" else 80):
         scs.append(sc_multihome("c07-multihome-%d" % i, rng.randrange(1 << 30), n=150, probes=0.45))
+    scs += tiny_family("c07", seed, tier)
+    scs += flood_family("c07", seed, tier)
     return with_slow(scs, seed, every=4)
 
 
@@ -832,6 +901,7 @@ def campaign_c08(seed, tier):
             hwid = rng.choice([hw, b"", hw[:2], hw[:62], (hw + hw)[:64]])
             scs.append(sc_c08("c08-%d-%d" % (mtu, i), rng.randrange(1 << 30), mtu, sz, nsz, hwid, tier))
         scs.append(sc_c08("c08-%d-absent" % mtu, rng.randrange(1 << 30), mtu, None, None, b"", tier))
+    scs += tiny_family("c08", seed, tier)
     return with_slow(scs, seed, every=6)
 
 
@@ -896,6 +966,7 @@ def campaign_c09(seed, tier):
     scs = []
     for i in range(32 if tier == "quick" else 3000):
         scs.append(sc_c09("c09-%d" % i, rng.randrange(1 << 30), MTUS[i % 3], [0.0, 0.2, 0.5][i % 3], rng.choice([0, 1, 5, 30, 80]), wifi=i % 2))
+    scs += flood_family("c09", seed, tier, twins=True)
     return with_slow(scs, seed, every=4)
 
 
@@ -1304,6 +1375,8 @@ def campaign_c01(seed, tier):
             i += 1
     for i, mtu in enumerate([576, 576, 590, 1500] if tier == "quick" else [576] * 30 + [590] * 10 + [1500] * 10 + [rng.randrange(576, 2000) for _ in range(30)]):
         scs.append(sc_churn("c01-churn-%d-%d" % (mtu, i), rng.randrange(1 << 30), mtu, all_entries=True))
+    scs += tiny_family("c01", seed, tier)
+    scs += flood_family("c01", seed, tier)
     return scs
 
 
